@@ -971,6 +971,7 @@ func modelCfg(rt *rapid.T) idl.Cfg {
 	c.Comments = false
 	c.Services = false
 	c.SharedNS = rapid.IntRange(0, 3).Draw(rt, "sharedns") == 0
+	c.SameConstNames = true // pa.LIMIT and pb.LIMIT are different constants
 	if vt.Known("C05", "enum-via-typedef-far") {
 		// the front end binds such a constant to nothing (C05's listed finding): thriftgo rejects the program
 		c.EnumViaTypedefFar = false
